@@ -293,6 +293,30 @@ def run(ctx):  # noqa: C901, PLR0912, PLR0915
     ctx.ob('C15.R4', 'own id registered first', ok,
            'add_outbound_message puts the MessageID into _known_message_ids before the message is queued (a looped-back '
            'copy is then recognised as known)', fi=ao)
+    ends = {}
+    for f2 in repo.funcs.values():
+        if f2.cls is not None and f2.cls.qual == f'{NT}.NetworkingThread':
+            for c in [x for x in ast.walk(f2.node) if isinstance(x, ast.Call)]:
+                if isinstance(c.func, ast.Attribute) and unparse(c.func.value) == 'self._known_message_ids' and \
+                        c.func.attr in ('append', 'appendleft', 'extend', 'extendleft', 'insert'):
+                    ends.setdefault(c.func.attr, []).append(f'{f2.name}:{c.lineno}')
+    ctx.ob('C15.R4', 'own and foreign ids enter the bounded history at the same end', len(ends) == 1,
+           'all writers of the bounded id history insert at the same end, so an own id is not evicted before older ids'
+           if len(ends) == 1 else
+           f'the id history is filled at both ends {ends}: once it is full the next foreign message evicts the id this '
+           f'node just sent, and its looped-back copy is handled as a foreign message', where=f'{NT}.NetworkingThread',
+           witness=ends)
+    # a datagram leaves the queue only when it is due
+    gs = cfg_of(rs)
+    gets = [n for n, c in gs.nodes_calling('get') if 'self._send_queue' in unparse(c.func)]
+    snd = gs.nodes_calling('_send_msg')
+    due = 'self._send_queue.queue[0].send_time <= time.time()'
+    ok = bool(gets) and bool(snd) and all((due, True) in gs.facts_at(n) for n in gets + [x for x, _ in snd])
+    ctx.ob('C15.R2', 'datagrams are sent only when due', ok,
+           '_run_send takes a datagram from the queue and sends it only on the true edge of `send_time <= time.time()`'
+           if ok else
+           '_run_send can send a queued datagram before its scheduled time (e.g. flushing the queue on shutdown): the '
+           'configured gaps are not kept', fi=rs, witness=[gs.facts_at(n) for n in gets])
     # all senders go through add_outbound_message
     direct = []
     for f2 in repo.funcs.values():
@@ -334,6 +358,10 @@ SEEDS = [
     seed('own id registered after queueing', 'C15.R4',
          (_N, "        self._known_message_ids.appendleft(msg.p_msg.header_info_block.MessageID)\n        self._repeated_enqueue_msg(OutgoingMessage(msg, addr, port), repeat_params)",
           "        self._repeated_enqueue_msg(OutgoingMessage(msg, addr, port), repeat_params)\n        self._known_message_ids.appendleft(msg.p_msg.header_info_block.MessageID)")),
+    seed('queue flushed on shutdown', 'C15.R2',
+         (_N, "            if self._send_queue.queue[0].send_time <= time.time():", "            if self._quit_send_event.is_set() or self._send_queue.queue[0].send_time <= time.time():")),
+    seed('own id stored at the other end', 'C15.R4',
+         (_N, "        self._known_message_ids.appendleft(msg.p_msg.header_info_block.MessageID)\n        self._repeated_enqueue_msg", "        self._known_message_ids.append(msg.p_msg.header_info_block.MessageID)\n        self._repeated_enqueue_msg")),
     seed('control: cap hoisted into a local in seconds', 'C15.R1',
          (_N, "        self._send_queue.put(self._EnqueuedMessage(next_send, msg, 1))\n", "        self._send_queue.put(self._EnqueuedMessage(next_send, msg, 1))\n        self._logger.debug('first at %r', next_send)\n"), control=True),
 ]
